@@ -577,7 +577,14 @@ def _iter_segments(
                                 slice_start,
                                 element.template_slice.stop + tfs_offset,
                             ),
-                            element.template_slice,
+                            # NOTE: If part of this element has already been
+                            # yielded (split whitespace), this segment only
+                            # covers the remainder in the templated file too.
+                            slice(
+                                element.template_slice.start
+                                + consumed_element_length,
+                                element.template_slice.stop,
+                            ),
                             templated_file,
                         ),
                         subslice=slice(consumed_element_length, None),
@@ -619,18 +626,27 @@ def _iter_segments(
                             raise NotImplementedError(  # pragma: no cover
                                 "Found literal whitespace with stashed idx!"
                             )
+                        # NOTE: Only count what's left of the element. Some
+                        # of it may already have been consumed by a previous
+                        # slice if it spans more than two of them.
+                        consumed_templated_idx = (
+                            element.template_slice.start + consumed_element_length
+                        )
                         incremental_length = (
-                            tfs.templated_slice.stop - element.template_slice.start
+                            tfs.templated_slice.stop - consumed_templated_idx
                         )
                         yield element.to_segment(
                             pos_marker=PositionMarker(
                                 slice(
-                                    element.template_slice.start
-                                    + consumed_element_length
-                                    + tfs_offset,
+                                    consumed_templated_idx + tfs_offset,
                                     tfs.templated_slice.stop + tfs_offset,
                                 ),
-                                element.template_slice,
+                                # The segment covers only this part of the
+                                # element in the templated file.
+                                slice(
+                                    consumed_templated_idx,
+                                    tfs.templated_slice.stop,
+                                ),
                                 templated_file,
                             ),
                             # Subdivide the existing segment.
@@ -687,7 +703,11 @@ def _iter_segments(
                                     # slice. We can't subdivide any better.
                                     tfs.source_slice.stop,
                                 ),
-                                element.template_slice,
+                                slice(
+                                    element.template_slice.start
+                                    + consumed_element_length,
+                                    element.template_slice.stop,
+                                ),
                                 templated_file,
                             ),
                             subslice=slice(consumed_element_length, None),
